@@ -162,7 +162,7 @@ func (c *otApplyContext) applyGPOS(table tables.GPOSLookup) bool {
 	buffer := c.buffer
 	glyphID := buffer.cur(0).Glyph
 	glyphPos := buffer.curPos(0)
-	index, ok := table.Cov().Index(gID(glyphID))
+	index, ok := table.Cov().Index(gid16(glyphID))
 	if !ok {
 		return false
 	}
@@ -340,7 +340,7 @@ func (c *otApplyContext) applyGPOSPair1(inner tables.PairPosData1, index int) bo
 	skippyIter := &c.iterInput
 	pos := skippyIter.idx
 	set := inner.PairSets[index]
-	record, ok := set.FindGlyph(gID(buffer.Info[skippyIter.idx].Glyph))
+	record, ok := set.FindGlyph(gid16(buffer.Info[skippyIter.idx].Glyph))
 	if !ok {
 		buffer.unsafeToConcat(buffer.idx, pos+1)
 		return false
@@ -370,13 +370,13 @@ func (c *otApplyContext) applyGPOSPair2(inner tables.PairPosData2) bool {
 	skippyIter := &c.iterInput
 
 	glyphID := buffer.cur(0).Glyph
-	class2, ok2 := inner.ClassDef2.Class(gID(buffer.Info[skippyIter.idx].Glyph))
+	class2, ok2 := inner.ClassDef2.Class(gid16(buffer.Info[skippyIter.idx].Glyph))
 	if !ok2 {
 		buffer.unsafeToConcat(buffer.idx, skippyIter.idx+1)
 		return false
 	}
 
-	class1, _ := inner.ClassDef1.Class(gID(glyphID))
+	class1, _ := inner.ClassDef1.Class(gid16(glyphID))
 	vals := inner.Record(class1, class2)
 
 	ap1 := c.applyGPOSValueRecord(inner.ValueFormat1, vals.ValueRecord1, buffer.curPos(0))
@@ -413,7 +413,7 @@ func (c *otApplyContext) applyGPOSCursive(data tables.CursivePos, covIndex int) 
 		return false
 	}
 
-	prevIndex, ok := data.Cov().Index(gID(buffer.Info[skippyIter.idx].Glyph))
+	prevIndex, ok := data.Cov().Index(gid16(buffer.Info[skippyIter.idx].Glyph))
 	if !ok {
 		buffer.unsafeToConcatFromOutbuffer(skippyIter.idx, buffer.idx+1)
 		return false
@@ -609,7 +609,7 @@ func (c *otApplyContext) applyGPOSMarkToBase(data tables.MarkBasePos, markIndex 
 				buffer.Info[idx].getLigID() != buffer.Info[idx-1].getLigID() ||
 				buffer.Info[idx].getLigComp() != buffer.Info[idx-1].getLigComp()+1
 
-			_, covered := data.BaseCoverage.Index(gID(buffer.Info[idx].Glyph))
+			_, covered := data.BaseCoverage.Index(gid16(buffer.Info[idx].Glyph))
 			if !accept && !covered {
 				ma = skip
 			}
@@ -627,7 +627,7 @@ func (c *otApplyContext) applyGPOSMarkToBase(data tables.MarkBasePos, markIndex 
 	}
 
 	idx := c.lastBase
-	baseIndex, ok := data.BaseCoverage.Index(gID(buffer.Info[idx].Glyph))
+	baseIndex, ok := data.BaseCoverage.Index(gid16(buffer.Info[idx].Glyph))
 	if !ok {
 		buffer.unsafeToConcatFromOutbuffer(idx, buffer.idx+1)
 		return false
@@ -661,7 +661,7 @@ func (c *otApplyContext) applyGPOSMarkToLigature(data tables.MarkLigPos, markInd
 	}
 
 	idx := c.lastBase
-	ligIndex, ok := data.LigatureCoverage.Index(gID(buffer.Info[idx].Glyph))
+	ligIndex, ok := data.LigatureCoverage.Index(gid16(buffer.Info[idx].Glyph))
 	if !ok {
 		c.buffer.unsafeToConcatFromOutbuffer(idx, c.buffer.idx+1)
 		return false
@@ -733,7 +733,7 @@ func (c *otApplyContext) applyGPOSMarkToMark(data tables.MarkMarkPos, mark1Index
 	return false
 
 good:
-	mark2Index, ok := data.Mark2Coverage.Index(gID(buffer.Info[j].Glyph))
+	mark2Index, ok := data.Mark2Coverage.Index(gid16(buffer.Info[j].Glyph))
 	if !ok {
 		buffer.unsafeToConcatFromOutbuffer(skippyIter.idx, buffer.idx+1)
 		return false
